@@ -72,6 +72,10 @@ type Session struct {
 	Trace bool
 	// GarbleRand, if set, wraps the garbler's randomness source.
 	GarbleRand func(io.Reader) io.Reader
+	// AbortOnStall: when the session stalls (both parties wait for bytes that
+	// will never come), both sockets are closed as an operator would do, and
+	// the parties run on to whatever they return.
+	AbortOnStall bool
 }
 
 // Out is what a session produced.
@@ -83,6 +87,7 @@ type Out struct {
 	GE, EG       []byte // transcripts per direction (if recorded)
 	OTWires      []ot.Wire
 	EA, EB       *simnet.Endpoint
+	Aborted      bool // the session stalled and was aborted
 }
 
 // Run executes one session under the simulator.
@@ -96,7 +101,19 @@ func Run(t *rt.Tape, s Session) *Out {
 	if s.GarbleRand != nil {
 		cfg.Rand = s.GarbleRand(cfg.Rand)
 	}
-	o.RR = rt.Run(rt.Config{Trace: s.Trace, NoProgress: core.NoProgressDefault, OnCrash: func(party string, _ *rt.Task) {
+	var onStall func() bool
+	if s.AbortOnStall {
+		onStall = func() bool {
+			if o.Aborted || o.GDone && o.EDone {
+				return false // only connection-writer tasks are left
+			}
+			o.Aborted = true
+			ea.Abort()
+			eb.Abort()
+			return true
+		}
+	}
+	o.RR = rt.Run(rt.Config{Trace: s.Trace, NoProgress: core.NoProgressDefault, OnStall: onStall, OnCrash: func(party string, _ *rt.Task) {
 		// a crashed process loses its sockets
 		if party == "G" {
 			ea.Abort()
